@@ -243,7 +243,7 @@ def examine_circuit_sweep(ctx, rng, n):
             if w == 0.0:
                 try:
                     r = cimp.open_circuit_dc_resistance(circuit, a, b)
-                    if abs(r - complex(want).real) > 1e-7 * max(abs(complex(want)), 1e-9):
+                    if abs(r - complex(want).real) > 1e-7 * zscale:      # same scale floor as the sweep: an exact zero is compared on the circuit's own ohmic scale
                         ctx.violation('C06:wrong-dc-resistance', f'{r} vs {complex(want).real}', rep)
                 except Exception as e:  # noqa: BLE001
                     ctx.violation(f'C06:circuit-impedance-raises-{type(e).__name__}', 'open_circuit_dc_resistance', rep)
